@@ -38,8 +38,19 @@ EmptySub(exp, fmt) ==
   Build(Top1(1000, "Z"), Own("o1"),
         <<Entry(<< >>, "s1", "k1", [LayoutD(<<GoodSig("k1")>>, exp, <<"k3">>, << >>, << >>) EXCEPT !.fmt = fmt])>>, {})
 
+\* a sub-layout the step does not NEED (another functionary's plain link already meets the threshold) is reached
+\* all the same, and must be unexpired
+SurplusSub(exp, fmt, thr) ==
+  Build([LayoutD(<<GoodSig("o1")>>, 1000, <<"k1", "k2", "k3">>,
+                 <<StepD("s1", <<"k1", "k2">>, thr, << >>, <<Simple("CREATE", PA)>>)>>, << >>) EXCEPT !.fmt = "Z"],
+        Own("o1"),
+        <<Entry(<< >>, "s1", "k2", LinkD("s1", <<GoodSig("k2")>>, {}, ProdA)),
+          Entry(<< >>, "s1", "k1", Sub(exp, fmt)),
+          Entry(<<"s1.k1">>, "in1", "k3", LinkD("in1", <<GoodSig("k3")>>, {}, ProdA))>>, {})
+
 MCInit ==
-  /\ \/ \E exp \in Offsets, fmt \in Fmts, lvl \in {"top", "sub"} :
+  /\ \/ \E exp \in Offsets, fmt \in {"Z", "+02:00"}, thr \in {1} : scn = SurplusSub(exp, fmt, thr)
+     \/ \E exp \in Offsets, fmt \in Fmts, lvl \in {"top", "sub"} :
           scn = IF lvl = "top" THEN TopCase(exp, fmt) ELSE SubCase(exp, fmt)
      \/ \E exp \in Offsets, fmt \in {"Z", "+02:00", "Z.25"}, lvl \in {"top", "sub"} :
           scn = IF lvl = "top" THEN EmptyTop(exp, fmt) ELSE EmptySub(exp, fmt)
